@@ -9,7 +9,8 @@
          pkg/lookups (one file per lookup), forward alias files of pkg/virtualtable;
    (3) alias store: forward files index -> alias set plus the in-memory reverse map
        alias -> index set of pkg/virtualtable/virtualtable.go (AddAliases, RemoveAliases,
-       initializeAliasToIndexMap, FlushAliasMapToFile).
+       initializeAliasToIndexMap, FlushAliasMapToFile) as of commit a69a617; the earlier restart
+       behaviour is kept as astep_prefix.
    Keys and values are byte strings (values: canonical JSON text), tenants are numbers. *)
 From SigM Require Import Base.
 Open Scope N_scope.
@@ -231,17 +232,42 @@ Definition adir_exists (t : tenant) : bool := N.eqb t 0.
 Definition rev_add_all (idx : list N) (als : nset) (r : nmap) : nmap :=
   fold_left (fun r al => nm_put al (ns_add idx (nm_get al r)) r) als r.
 
-(* initializeAliasToIndexMap: only sub-directories of aliases/ are scanned, i.e. tenants <> 0 *)
+(* initializeAliasToIndexMap: every <index>.json of every tenant is loaded (sub-directories for
+   tenants <> 0, the files lying in aliases/ itself for tenant 0): for each file name the aliases
+   are read with GetAliases(index, org) and registered in memory *)
+Definition rebuild_tenant (fm : nmap) : nmap :=
+  fold_left (fun r ia => rev_add_all (fst ia) (nm_get (fst ia) fm) r) fm [].
+
 Definition rebuild_rev (files : list (tenant * nmap)) : list (tenant * nmap) :=
+  fold_left (fun acc tf => t_put (fst tf) (rebuild_tenant (t_nm (fst tf) files)) acc) files [].
+
+(* FlushAliasMapToFile: the in-memory map alias -> indexes is inverted and the file <index>.json of
+   every index that has an alias in memory is rewritten with its aliases *)
+Definition inv_set (idx : list N) (rm : nmap) : nset :=
+  filter (fun a => ns_mem idx (nm_get a rm)) (map fst rm).
+
+Definition flush_targets (rm : nmap) : list (list N) := flat_map snd rm.
+
+Definition flush_tenant (rm fm : nmap) : nmap :=
+  fold_left (fun fm idx => nm_put idx (inv_set idx rm) fm) (flush_targets rm) fm.
+
+Definition flush_rev (s : astore) : list (tenant * nmap) :=
+  fold_left (fun files tr =>
+    let t := fst tr in
+    if adir_exists t then t_put t (flush_tenant (t_nm t (arev s)) (t_nm t files)) files
+    else files)
+    (arev s) (afiles s).
+
+(* PRE-FIX (documentation): only sub-directories of aliases/ were scanned at start, i.e. tenants
+   <> 0; and the shutdown flush wrote one file per ALIAS holding the INDEX names *)
+Definition rebuild_rev_prefix (files : list (tenant * nmap)) : list (tenant * nmap) :=
   fold_left (fun acc tf =>
     let '(t, fm) := tf in
     if N.eqb t 0 then acc else
     t_put t (fold_left (fun r ia => rev_add_all (fst ia) (snd ia) r) fm (t_nm t acc)) acc)
     files [].
 
-(* FlushAliasMapToFile: for every alias, writeAliasFile(&alias, indexNames, org) — the file is
-   named after the ALIAS and holds the INDEX names *)
-Definition flush_rev (s : astore) : list (tenant * nmap) :=
+Definition flush_rev_prefix (s : astore) : list (tenant * nmap) :=
   fold_left (fun files tr =>
     let '(t, rm) := tr in
     if adir_exists t then
@@ -283,6 +309,17 @@ Definition astep (s : astore) (o : aop) : astore * aout :=
   | AShutdownRestart =>
     let files := flush_rev s in (mkAStore files (rebuild_rev files), AAck true)
   end.
+
+Definition astep_prefix (s : astore) (o : aop) : astore * aout :=
+  match o with
+  | ACrashRestart => (mkAStore (afiles s) (rebuild_rev_prefix (afiles s)), AAck true)
+  | AShutdownRestart =>
+    let files := flush_rev_prefix s in (mkAStore files (rebuild_rev_prefix files), AAck true)
+  | _ => astep s o
+  end.
+
+Fixpoint arun_prefix (ops : list aop) (s : astore) : astore :=
+  match ops with [] => s | o :: r => arun_prefix r (fst (astep_prefix s o)) end.
 
 Fixpoint arun (ops : list aop) (s : astore) : astore :=
   match ops with [] => s | o :: r => arun r (fst (astep s o)) end.
